@@ -49,7 +49,9 @@ def random_graph(rng, n):
 
 def run(ck, tier):
     sd = vplib.subdir('c18')
-    cfgs = [('Needs_q3.cfg', '3 jobs, every ordered needs list (4096 graphs) x 6 root orders'),
+    cfgs = [('Needs_n1.cfg', '1 job: self dependency, dangling and duplicate entries'),
+            ('Needs_n2.cfg', '2 jobs, lists <= 2 with dangling and duplicate ids'),
+            ('Needs_q3.cfg', '3 jobs, every ordered needs list (4096 graphs) x 6 root orders'),
             ('Needs_vec3.cfg', '3 jobs, lists <=2 with dangling and duplicate ids (9261 graphs)'),
             ('Needs_q4.cfg', '4 jobs, every edge set (65536 graphs) x 24 root orders')]
     if tier == 'thorough':
